@@ -590,6 +590,10 @@ func neededChanges(currentProfile, desiredProfile *osutil.MountProfile) []*Chang
 
 	// Indexed by mount point path.
 	reuse := make(map[mountEntryId]bool)
+	// Desired entries that are already in place (the current profile has an
+	// identical entry); a reused synthetic entry at the same mount point
+	// does not stand for the desired one.
+	satisfied := make(map[mountEntryId]bool)
 	// Indexed by entry ID
 	desiredIDs := make(map[string]bool)
 	var skipDir string
@@ -646,6 +650,7 @@ func neededChanges(currentProfile, desiredProfile *osutil.MountProfile) []*Chang
 		if entry, ok := desiredMap[dir]; ok && current[i].Equal(entry) {
 			logger.Debugf("reusing unchanged entry %q", current[i])
 			reuse[mountId] = true
+			satisfied[mountId] = true
 			continue
 		}
 
@@ -678,7 +683,7 @@ func neededChanges(currentProfile, desiredProfile *osutil.MountProfile) []*Chang
 
 	var desiredNotReused []osutil.MountEntry
 	for _, entry := range desired {
-		if !reuse[mountEntryId{entry.Dir, entry.Type}] {
+		if !satisfied[mountEntryId{entry.Dir, entry.Type}] {
 			desiredNotReused = append(desiredNotReused, entry)
 		}
 	}
